@@ -440,3 +440,19 @@ LEVEL_TEXT += _ADD22
 _ADDR5D = ' Borrowed: R03.4 as well (TypedDict / NamedTuple helper bodies: optional keys are read with get(..., MISSING), which fails on a non-mapping).'
 EXPLANATION += _ADDR5D
 LEVEL_TEXT += _ADDR5D
+
+
+_run_before_r6 = run
+
+
+def run(repo, rep, tier):  # noqa: F811 -- round-6 shape rules appended to the rules above
+    _run_before_r6(repo, rep, tier)
+    if getattr(rep, "borrowed", False):
+        return
+    from ..core import round6 as _r6
+    _r6.nullability_through_annotated(repo, rep, "R05.14")
+
+
+_ADDR6A = ' R05.14: the None guard is decided on the type the registry dispatches on -- is_optional strips Annotated[...] like Registry.get does, at every could_be_none site of the class and codec builders.'
+EXPLANATION += _ADDR6A
+LEVEL_TEXT += _ADDR6A
